@@ -306,6 +306,12 @@ FIX = TRef("FastaIndex")
 _LOADED = ["g_index_loaded", "g_assembly_loaded"]
 
 
+def cache_accepted(s):
+    """both cache files exist and both are strictly newer than the FASTA file (what check_for_index_files returns)"""
+    newer = lambda p: z3.And(p.g_exists, p.g_mtime > s.fasta_file.g_mtime)
+    return z3.And(newer(s.fai_file), newer(s.agp_file))
+
+
 @contract(f"{IDX}.FastaIndex.load_index", status="TRUSTED", properties=("C15",))
 class _:
     # reads <fasta>.fai into .index (content: bounded tier); refuses a second load
@@ -338,11 +344,11 @@ class _:
     params = {"self": FIX}
     result = NONE
     raises = {e: (lambda o: True) for e in ("ValueError", "FileNotFoundError", "OSError")}
-    modifies = staticmethod(lambda o: [("field", "FastaIndex", f, o.self) for f in _LOADED + ["index"]] + [
+    modifies = staticmethod(lambda o: [("field", "FastaIndex", f, o.self) for f in _LOADED + ["index", "g_rebuilt"]] + [
         ("field", "Path", "g_exists", o.self.fai_file), ("field", "Path", "g_mtime", o.self.fai_file),
         ("field", "Path", "g_exists", o.self.agp_file), ("field", "Path", "g_mtime", o.self.agp_file),
         ("fresh-objs", "FastaInfo", ["length", "file_offset", "residues_per_line", "max_line_length"]), ("dict-maps", STR, TRef("FastaInfo")), ("alloc",), ("ralloc",)])
-    ensures = staticmethod(lambda o, n, res: z3.And(n.self.g_index_loaded, n.self.g_assembly_loaded))
+    ensures = staticmethod(lambda o, n, res: z3.And(n.self.g_index_loaded, n.self.g_assembly_loaded, n.self.g_rebuilt))
 
 
 @contract(f"{IDX}.FastaIndex.auto_load", properties=("C15", "C03", "C17"))
@@ -351,11 +357,13 @@ class _:
     # is loaded - index first - and otherwise the file is indexed; either way index and assembly are both filled
     params = {"self": FIX}
     result = NONE
-    requires = staticmethod(lambda o: [("nothing-loaded-yet", z3.And(z3.Not(o.self.g_index_loaded), z3.Not(o.self.g_assembly_loaded))),
+    requires = staticmethod(lambda o: [("nothing-loaded-yet", z3.And(z3.Not(o.self.g_index_loaded), z3.Not(o.self.g_assembly_loaded), z3.Not(o.self.g_rebuilt))),
                                        ("three-files", z3.And(o.self.fasta_file.z != o.self.fai_file.z, o.self.fasta_file.z != o.self.agp_file.z, o.self.fai_file.z != o.self.agp_file.z))])
     raises = {e: (lambda o: True) for e in ("ValueError", "FileNotFoundError", "OSError", "IndexError", "KeyError", "AttributeError", "TypeError")}
-    modifies = staticmethod(lambda o: [("field", "FastaIndex", f, o.self) for f in _LOADED + ["index"]] + [
+    modifies = staticmethod(lambda o: [("field", "FastaIndex", f, o.self) for f in _LOADED + ["index", "g_rebuilt"]] + [
         ("field", "Path", "g_exists", o.self.fai_file), ("field", "Path", "g_mtime", o.self.fai_file),
         ("field", "Path", "g_exists", o.self.agp_file), ("field", "Path", "g_mtime", o.self.agp_file),
         ("fresh-objs", "FastaInfo", ["length", "file_offset", "residues_per_line", "max_line_length"]), ("dict-maps", STR, TRef("FastaInfo")), ("alloc",), ("ralloc",)])
-    ensures = staticmethod(lambda o, n, res: [("index-and-assembly-both-filled", z3.And(n.self.g_index_loaded, n.self.g_assembly_loaded))])
+    ensures = staticmethod(lambda o, n, res: [("index-and-assembly-both-filled", z3.And(n.self.g_index_loaded, n.self.g_assembly_loaded)),
+                                              # the cache is used exactly when it is accepted; otherwise the file is indexed afresh
+                                              ("rebuilt-iff-the-cache-is-not-accepted", n.self.g_rebuilt == z3.Not(cache_accepted(o.self)))])
